@@ -671,6 +671,17 @@ impl<Front: SocketHandler> ConnectionH1<Front> {
                         stream.front.clear();
                         // do not stream.front.storage.clear() because of H1 pipelining
                         stream.attempts = 0;
+                        // The slot is reused for the next keep-alive request: the
+                        // per-request end-of-stream / body accounting must start
+                        // from scratch, exactly as `Context::create_stream` does
+                        // when it recycles a slot. A stale
+                        // `back_received_end_of_stream` makes an H2 backend
+                        // connection reject the next response HEADERS
+                        // (GOAWAY STREAM_CLOSED -> 502).
+                        stream.front_received_end_of_stream = false;
+                        stream.back_received_end_of_stream = false;
+                        stream.front_data_received = 0;
+                        stream.back_data_received = 0;
                         // Transition back to Idle so buffered pipelined requests
                         // trigger a phase transition on the next readable() call.
                         stream.state = StreamState::Idle;
